@@ -119,3 +119,15 @@ def make_stream(samples, fail_at, container):
     return list(samples), None
   fs = FaultyStream(samples, fail_at, 'iter' if container == 'list' else container)
   return fs, fs
+
+
+def recipe_manager_of(q):
+  """The RecipeManager behind a Quantizer, found by type (survives attribute renames)."""
+  from ai_edge_quantizer import recipe_manager
+  rm = getattr(q, '_recipe_manager', None)
+  if isinstance(rm, recipe_manager.RecipeManager):
+    return rm
+  for v in vars(q).values():
+    if isinstance(v, recipe_manager.RecipeManager):
+      return v
+  raise AttributeError('no RecipeManager found on Quantizer')
